@@ -101,10 +101,12 @@ def translate_prints(body, kinds, where, pattern=r'\b(?:file_?)\.print\('):
                         break
                 if macro is None:
                     raise extract.ExtractionError('R22: no token kind known for printed expression %r (%s)' % (e, where))
-                if spec not in ('', '.16'):
+                mp_ = re.fullmatch(r'\.(\d+)', spec)
+                if spec != '' and not mp_:
                     raise extract.ExtractionError('R22: format spec %r (%s)' % (spec, where))
-                if spec == '.16':
+                if mp_ and int(mp_.group(1)) >= 16:      # "{:.16}" (or more digits): a token that carries at least 16 significant digits
                     macro = {'VP_REAL': 'VP_REAL16', 'VP_ANY': 'VP_ANY16'}.get(macro, macro + '_16')
+                # a smaller precision stays the plain token: acceptors that need 16 digits reject it
                 emits.append('%s(%s);' % (macro, e))
         end = j + 1
         if body[end:end + 1] == ';':
